@@ -14,8 +14,10 @@ git apply $sd/patch.diff
 res=$(make -j8 check 2>&1 | grep -E '^# (PASS|FAIL|TOTAL)' | tr -d '\n')
 cmd=$(python3 -c "import json,sys; print(json.load(open('$sd/meta.json'))['demo_cmd'])")
 ( cd $sd && timeout 600 bash -c "$cmd" ) > /tmp/seed-demo-with.log 2>&1; with=$?
+e=$(grep -o 'exit=[0-9]*' /tmp/seed-demo-with.log | tail -1 | cut -d= -f2); [ -n "$e" ] && [ $with -eq 0 ] && with=$e
 git checkout -q -- .
 ( cd $sd && timeout 600 bash -c "$cmd" ) > /tmp/seed-demo-without.log 2>&1; without=$?
+e=$(grep -o 'exit=[0-9]*' /tmp/seed-demo-without.log | tail -1 | cut -d= -f2); [ -n "$e" ] && [ $without -eq 0 ] && without=$e
 echo "SEED $id$sfx-$k: make check with patch: [$res]; demo exit with=$with without=$without"
 if echo "$res" | grep -q "PASS:  17# .*FAIL:  0" || echo "$res" | grep -q "# TOTAL: 17# PASS:  17"; then okc=1; else okc=0; fi
 if [ $okc = 1 ] && [ $with -ne 0 ] && [ $without -eq 0 ]; then
